@@ -35,6 +35,17 @@ namespace verif_c18 {
         ex::start(os);
         auto os2 = ex::connect(a, sink{});
         ex::start(os2);
+        // re-seating through reset(): from an lvalue wrapper (a copy), an rvalue wrapper, a concrete sender (C18.R7)
+        ex::any_sender<int> a3(ex::just(3)), a4(ex::just(4));
+        a3.reset(a4);
+        a3.reset(std::move(a4));
+        a3.reset(ex::just(5));
+        ex::any_sender<int> const a5(ex::just(5));
+        a3.reset(a5);
+        ex::unique_any_sender<int> u4(ex::just(6)), u5(ex::just(7));
+        u4.reset(std::move(u5));
+        u4.reset(ex::just(8));
+        u4.reset(a3);
 
         pika::util::detail::function<void()> f = [] {};
         pika::util::detail::function<void()> g = f;
